@@ -6,6 +6,7 @@ A program spec:
   F = {"name","params":[{"name","default":enc|None}],"annot":path|None,"salt":str,"stmts":[S...],"reads":[VAR...],
        "ext":[names of helpers imported from the non-accepted module], "is_class": False}
   S = {"k":"call","callee":(mod,name),"args":[E],"via":"name"|"attr"|"alias"}
+        (a callee with "is_class": True is only ever the callee of a call: rendered `x<i> = g(args).v`)
     | {"k":"keep","path":p,"callee":(mod,name),"pos":[E],"kw":[[n,E]],"layout":"single"|"multi"}
     | {"k":"load","path":p} | {"k":"ref","callee":(mod,name)}
   E = ["lit", enc] | ["param", i] | ["local", i] | ["var", NAME]
@@ -118,7 +119,9 @@ def render_function(prog, mname, f):
             if imp:
                 imports.add(imp)
             args = ", ".join(expr_src(f, e, mname) for e in st["args"])
-            lines.append(f"{ind}x{i} = {ref}({args})")
+            # a class callee stores its value tuple in self.v: the local holds the tuple, not the instance
+            suffix = ".v" if find_func(prog, *st["callee"]).get("is_class") else ""
+            lines.append(f"{ind}x{i} = {ref}({args}){suffix}")
             info.append({"line": len(lines)})
         elif k == "ref":
             ref, imp = callee_ref(prog, mname, dict(st, via="name" if st.get("via") != "alias" else "alias"))
@@ -160,6 +163,8 @@ def render_function(prog, mname, f):
     items = [repr(tag)] + [p["name"] for p in f["params"]] + sorted(f.get("reads", [])) + \
             [f"x{i}" for i in range(len(f["stmts"]))]
     if f.get("is_class"):
+        if f.get("raises"):
+            lines.append(f"{ind}raise {LOGMOD}.make_exc({f['raises']!r}, {tag!r})")
         lines.append(f"{ind}self.v = ({', '.join(items)},)")
         lines.append("    def get(self):")
         lines.append("        return self.v")
@@ -321,6 +326,11 @@ def fn_term(prog, mod, name, depth=0):
     params = "[" + "; ".join(coq_param(p) for p in f["params"]) + "]"
     lines_c = "[" + "; ".join(hexs(l) for l in src_lines) + "]"
     raises = f"(Some {hexs(f['raises'])})" if f.get("raises") else "None"
+    if f.get("is_class"):
+        # one body per method, in source order: __init__ (the statements), then `get`, which only mentions `self`
+        # (not a module name: no variable, no external name, no interaction)
+        return (f"(Fn {hexs(prog['pkg'] + '/' + mod + '/' + name)} {hexs(name)} {raises} {lines_c} {params} {annot} true "
+                f"(bodies_of [{body}; Body [] [] (steps_of [])]))")
     return (f"(Fn {hexs(prog['pkg'] + '/' + mod + '/' + name)} {hexs(name)} {raises} {lines_c} {params} {annot} false "
             f"(bodies_of [{body}]))")
 
@@ -346,7 +356,9 @@ def contains_keep(prog, mod, name, memo=None):
     return False
 
 
-def gen_program(rng, n_funcs=None, n_mods=None, allow_loads=False, pkg="vpk"):
+def gen_program(rng, n_funcs=None, n_mods=None, allow_loads=False, pkg="vpk", allow_classes=False):
+    """allow_classes: a plain function that is not the root becomes a class with probability 0.2 (the extra random
+    numbers are drawn only then: the programs generated with allow_classes=False are unchanged)."""
     n_funcs = n_funcs or rng.randint(2, 8)
     n_mods = n_mods or rng.randint(1, 3)
     mods = {f"m{i}": {"vars": {}, "funcs": []} for i in range(n_mods)}
@@ -377,6 +389,8 @@ def gen_program(rng, n_funcs=None, n_mods=None, allow_loads=False, pkg="vpk"):
         f = {"name": f"f{i}", "params": params, "annot": new_path() if is_data else None, "salt": f"s{i}", "stmts": [],
              "reads": sorted(rng.sample(sorted(mods[mn]["vars"]), rng.randint(0, min(2, len(mods[mn]["vars"]))))),
              "ext": rng.sample(["helper_a", "helper_b"], rng.choice([0, 0, 0, 1]))}
+        if allow_classes and not is_root and not is_data and rng.random() < 0.2:
+            f["is_class"] = True        # marked at creation: the statements generated later only ever `call` it
         nst = rng.choice([0, 1, 1, 2, 3]) if funcs else 0
         if is_root and funcs:
             nst = max(nst, 2)
@@ -399,7 +413,9 @@ def gen_program(rng, n_funcs=None, n_mods=None, allow_loads=False, pkg="vpk"):
                         opts.append(["var", rng.choice(f["reads"])])
                 return rng.choice(opts)
             required = [p for p in g["params"] if p.get("default") is None]
-            if g.get("annot"):
+            if g.get("is_class"):
+                kind = "call"
+            elif g.get("annot"):
                 kind = "call" if r < 0.8 else "ref"
             elif r < 0.45:
                 kind = "keep"
@@ -616,7 +632,8 @@ def mfn_term(prog, mod, name, depth=0):
     params = "[" + "; ".join(coq_param(p) for p in f["params"]) + "]"
     lines_c = "[" + "; ".join(hexs(l) for l in src_lines) + "]"
     raises = f"(Some {hexs(f['raises'])})" if f.get("raises") else "None"
-    return (f"(MFn {hexs(prog['pkg'] + '/' + mod + '/' + name)} {hexs(name)} {raises} {lines_c} {params} {annot} "
+    is_class = "true" if f.get("is_class") else "false"
+    return (f"(MFn {hexs(prog['pkg'] + '/' + mod + '/' + name)} {hexs(name)} {raises} {lines_c} {params} {annot} {is_class} "
             f"{modvars} {helpers} [" + "; ".join(f"({s})" for s in stmts) + "])")
 
 
@@ -655,7 +672,9 @@ def _stress(prog, rng):
             if rng.random() < 0.3:
                 f["ext"] = rng.sample(["helper_a", "helper_b", "aaa_helper"], rng.randint(1, 3))
             if rng.random() < 0.2:
-                f["raises"] = rng.choice(["ValueError", "Exception"])
+                kind_exc = rng.choice(["ValueError", "Exception"])
+                if not f.get("is_class"):       # (a class never raises: its value is what __init__ stores in self.v)
+                    f["raises"] = kind_exc
             # more mentions of functions that are already mentioned (or of any earlier plain function)
             for _ in range(rng.choice([0, 0, 1, 2, 3])):
                 cands = [tuple(st["callee"]) for st in f["stmts"] if "callee" in st]
@@ -665,6 +684,8 @@ def _stress(prog, rng):
                 g = find_func(p, cm, cn)
                 kind = rng.choice(["ref", "ref", "keep", "call"])
                 via = rng.choice(["name", "attr", "alias"])
+                if g.get("is_class"):
+                    kind = "call"               # a class is only ever called
                 if kind == "call":
                     st = {"k": "call", "callee": (cm, cn), "args": [["lit", rng.choice(LIT_VALUES + STRESS_LITS)] for _ in g["params"]], "via": via}
                 elif kind == "keep":
@@ -699,8 +720,9 @@ def _insert_stmt(f, pos, st):
 
 
 def discover_cases(n_programs, seed):
-    """(label, prog, mod, name) for every function of: n random programs, their stressed variants, the C09 load
-    matrix, the C01 targeted scenarios."""
+    """(label, prog, mod, name) for every function of: n random programs, their stressed variants, n/2 random programs
+    with classes (own random stream: the first group is what it was before classes existed) and their stressed
+    variants, the C09 load matrix, the C01 targeted scenarios."""
     import random
     rng = random.Random(seed)
     progs_ = []
@@ -708,6 +730,15 @@ def discover_cases(n_programs, seed):
         p = gen_program(rng, allow_loads=bool(k % 2))
         progs_.append((f"gen{k}", p))
         progs_.append((f"stress{k}", _stress(p, rng)))
+    rng_c = random.Random(f"classes-{seed}")
+    k = 0
+    while k < (n_programs + 1) // 2:
+        p = gen_program(rng_c, allow_classes=True)
+        if not any(f.get("is_class") for m in p["modules"].values() for f in m["funcs"]):
+            continue
+        progs_.append((f"cls{k}", p))
+        progs_.append((f"cls-stress{k}", _stress(p, rng_c)))
+        k += 1
     import c09
     for pl in c09.PLACEMENTS:
         for pr in c09.PRODUCERS:
